@@ -3,17 +3,43 @@ sys.path.insert(0, os.path.dirname(os.path.dirname(os.path.abspath(__file__))))
 import checklib
 
 
+STMT_REQUESTS = [
+    "kvstore/batch_writer.go:var=defaultOptions", "kvstore/batch_writer.go:NewBatchedWriter",
+    "kvstore/batch_writer.go:Options.apply", "kvstore/batch_writer.go:WithQueueSize",
+    "kvstore/batch_writer.go:WithBatchSize", "kvstore/batch_writer.go:WithBatchTimeout",
+    "kvstore/batch_writer.go:BatchedWriter.startBatchWriter", "kvstore/batch_writer.go:BatchedWriter.StopBatchWriter",
+    "kvstore/batch_writer.go:BatchedWriter.Enqueue", "kvstore/batch_writer.go:BatchedWriter.Flush",
+    "kvstore/batch_writer.go:BatchedWriter.runBatchWriter", "kvstore/batch_collector.go:newBatchCollector",
+    "kvstore/batch_collector.go:BatchCollector.Add", "kvstore/batch_collector.go:BatchCollector.Commit"]
+
+
+def regen_stmts(ctx):
+    """Regenerates lean/Hive/Gen/C08_Stmts.lean: the normalised statements (guards, arguments, constants, index
+    expressions) of the anchored functions, pinned by the `C08_stmts_*` theorems."""
+    out = os.path.join(checklib.LEAN, "Hive", "Gen", "C08_Stmts.lean")
+    tmp = os.path.join(ctx.scratch, "C08_Stmts.lean")
+    args = ["go", "run", "./c08/stmts", tmp, "Hive.Gen.C08Stmts"] + [os.path.join(ctx.repo, r) for r in STMT_REQUESTS]
+    rc, log = checklib.sh(args, cwd=checklib.HARNESS, timeout=600)
+    if rc != 0 or not os.path.exists(tmp):
+        return [{"kind": "skeleton-extractor", "detail": checklib.tail(log, 20)}]
+    checklib.write_gen(ctx, out, open(tmp).read())
+    return []
+
+
 def regen(ctx):
-    return checklib.regen_skeletons(ctx, [
+    fails = checklib.regen_skeletons(ctx, [
         "kvstore/batch_writer.go:BatchedWriter.Enqueue", "kvstore/batch_writer.go:BatchedWriter.startBatchWriter",
         "kvstore/batch_writer.go:BatchedWriter.StopBatchWriter", "kvstore/batch_writer.go:BatchedWriter.Flush",
         "kvstore/batch_writer.go:BatchedWriter.runBatchWriter", "kvstore/batch_collector.go:BatchCollector.Add",
-        "kvstore/batch_collector.go:BatchCollector.Commit"],
+        "kvstore/batch_collector.go:BatchCollector.Commit",
+        "kvstore/batch_writer.go:type=BatchedWriter", "kvstore/batch_writer.go:type=Options",
+        "kvstore/batch_collector.go:type=BatchCollector"],
         extra_methods=["BatchWriteScheduled", "ResetBatchWriteScheduled", "BatchWrite", "BatchWriteDone", "Commit", "Cancel", "Batched"])
+    return (fails or []) + regen_stmts(ctx)
 
 
 SPEC = {
-    "lean_props": "Hive.Props.C08",
+    "lean_props": ["Hive.Props.C08", "Hive.Props.BatchWriterTie"],
     "regen": regen,
     "lean_namespace": "Hive.BatchWriter",
     "driver": "drv_c08",
@@ -25,7 +51,8 @@ SPEC = {
                  "C08_old_racing_enqueue_witness", "C08_old_stop_waits_witness", "C08_old_no_block_forever_witness",
                  "C08_old_statement_witness", "C08_skeleton_Enqueue", "C08_skeleton_startBatchWriter",
                  "C08_skeleton_StopBatchWriter", "C08_skeleton_Flush", "C08_skeleton_runBatchWriter",
-                 "C08_skeleton_collector_Add", "C08_skeleton_collector_Commit"],
+                 "C08_skeleton_collector_Add", "C08_skeleton_collector_Commit",
+                 "C08_skeleton_type_BatchedWriter", "C08_skeleton_type_Options", "C08_skeleton_type_BatchCollector", "C08_stmts_var_defaultOptions", "C08_stmts_NewBatchedWriter", "C08_stmts_Options_apply", "C08_stmts_WithQueueSize", "C08_stmts_WithBatchSize", "C08_stmts_WithBatchTimeout", "C08_stmts_BatchedWriter_startBatchWriter", "C08_stmts_BatchedWriter_StopBatchWriter", "C08_stmts_BatchedWriter_Enqueue", "C08_stmts_BatchedWriter_Flush", "C08_stmts_BatchedWriter_runBatchWriter", "C08_stmts_newBatchCollector", "C08_stmts_BatchCollector_Add", "C08_stmts_BatchCollector_Commit"],
     "trusted_base": ["hand-written protocol model Hive/Model/BatchWriter.lean of kvstore/batch_writer.go + batch_collector.go, tied by (a) the trace predicate evaluated on traces of the real code, (b) the witness schedules replayed on the real code with trace equality, (c) regenerated synchronisation skeletons",
                      "Go semantics of sync.Once / Mutex / WaitGroup / atomics / buffered channels / select as written in the model",
                      "Go toolchain, compiled Lean driver, harness trace recorder (one mutex-ordered event log)"],
